@@ -100,6 +100,11 @@ def run_variant(ctx, variant, scenarios, modes, agg):
                     ok = False
                     st["damage"] += 1
                     ctx.violation("damage scenario=%s failed-alloc=%s what=%s" % (sc, fsite, re.sub(r"\d+", "N", o["damage"])), "scenario %s k=%d: %s" % (sc, o["k"], o["damage"]), o)
+                if o.get("shm_maps_left", 0) > 0 or o.get("fds_left", 0) > 0:
+                    ok = False
+                    what = "shared-memory mapping" if o.get("shm_maps_left", 0) > 0 else "descriptor"
+                    ctx.violation("resource-left kind=%s scenario=%s failed-alloc=%s" % (what.split()[0], sc, fsite),
+                                  "scenario %s k=%d %s: %d %s(s) of this process still present after the failed call returned and everything was freed" % (sc, o["k"], "sticky" if o["sticky"] else "once", max(o.get("shm_maps_left", 0), o.get("fds_left", 0)), what), o)
                 if o["bad_free"]:
                     ok = False
                     ctx.violation("bad-free scenario=%s failed-alloc=%s" % (sc, fsite), "scenario %s k=%d: %d frees of blocks that are not live (double/foreign free)" % (sc, o["k"], o["bad_free"]), o)
